@@ -141,7 +141,7 @@ def validate_trace(module, cfg, trace_path, *, timeout=300, env=None, name=None)
     e = {"TRACE": str(trace_path)}
     e.update(env or {})
     res = run_tlc(module, cfg, workers=1, timeout=timeout, coverage=False, env=e, dfs=True,
-                  jvm_opts=["-Xss1g", "-Xmx4g"], name=name)
+                  jvm_opts=["-Xss1g", "-Xmx2g", "-XX:ParallelGCThreads=2", "-XX:TieredStopAtLevel=1"], name=name)
     info = {"distinct": res.distinct, "depth": res.depth, "rc": res.rc}
     m = re.search(r'"TRACE-UNMATCHED", (\d+), (.*?)>>', res.out, re.S)
     if m:
